@@ -16,6 +16,7 @@ import Sudachi.Model.LayersIO
 import Sudachi.Model.Codec
 import Sudachi.Model.CodecBuild
 import Sudachi.Model.Trie
+import Sudachi.Model.BuildIO
 /-! Line protocol dispatcher: one case per line in, one answer per line out. -/
 namespace Driver
 
@@ -41,6 +42,7 @@ def answer (line : String) : String :=
     | "C12" => Layers.handle op rest
     | "C05" => Codec.handle rest
     | "C04" => Trie.handle op rest
+    | "C06" => Build.handle rest
     | _ => "bad-op"
   | _ => "bad-op"
 
